@@ -308,46 +308,98 @@ def rule_scheme(repo, rep):
         rep.refuted(R, key + 'eigh-argument', site(f, n), 'eigh decomposes '
                     '%r, documented the symmetrisation %r of the current '
                     'matrix' % (v, sym))
-  # acceptance: improvement of the dissimilar-pair objective
+  # acceptance: improvement of the dissimilar-pair objective.  Structural:
+  # the test guarding `A_old[:] = A` (temporaries unfolded) contains a
+  # comparison of two calls of the same objective function whose arguments
+  # agree except that one has the kept iterate and the other the new one.
+  pm_ = astutil.parents(f.node)
+
+  def block_of(node):
+    p_ = pm_.get(node)
+    while p_ is not None:
+      for fld in ('body', 'orelse', 'finalbody'):
+        b_ = getattr(p_, fld, None)
+        if isinstance(b_, list) and node in b_:
+          return b_
+      node, p_ = p_, pm_.get(p_)
+    return f.node.body
+
+  def objective_cmp(test, kept, new):
+    """'better' | 'worse' | None, and the two calls"""
+    for cmp_ in ast.walk(test):
+      if not (isinstance(cmp_, ast.Compare) and len(cmp_.ops) == 1 and
+              isinstance(cmp_.ops[0], (ast.Lt, ast.LtE, ast.Gt, ast.GtE))):
+        continue
+      l_, r_ = cmp_.left, cmp_.comparators[0]
+      if not (isinstance(l_, ast.Call) and isinstance(r_, ast.Call) and
+              ast.unparse(l_.func) == ast.unparse(r_.func) and
+              len(l_.args) == len(r_.args) and not l_.keywords and
+              not r_.keywords):
+        continue
+      la = [ast.unparse(x) for x in l_.args]
+      ra = [ast.unparse(x) for x in r_.args]
+      diff = [(x, y) for x, y in zip(la, ra) if x != y]
+      if len(diff) != 1:
+        continue
+      lt = isinstance(cmp_.ops[0], (ast.Lt, ast.LtE))
+      if diff[0] == (kept, new):
+        return ('better' if lt else 'worse'), l_, r_
+      if diff[0] == (new, kept):
+        return ('worse' if lt else 'better'), r_, l_
+    return None, None, None
+  obj_calls = []
   for n in ast.walk(f.node):
-    if isinstance(n, ast.Assign) and ast.unparse(n.targets[0]) == 'A_old[:]':
+    if isinstance(n, ast.Assign) and isinstance(n.targets[0], ast.Subscript) \
+            and ast.unparse(n.targets[0]) == 'A_old[:]' and \
+            isinstance(n.value, ast.Name):
+      kept, new = 'A_old', n.value.id
       ifs = [p_ for (p_, ch) in astutil.enclosing(f.node, n, ast.If)
              if ch in p_.body]
-      tests = [ast.unparse(p_.test)
-               .replace('self._fD(neg_pairs, A_old)', 'obj_previous')
-               .replace('self._fD(neg_pairs, A)', 'obj') for p_ in ifs]
-      good = ('satisfy and (obj_previous < obj or cycle == 0)',
-              'satisfy and (cycle == 0 or obj_previous < obj)',
-              'satisfy and (obj_previous <= obj or cycle == 0)',
-              'satisfy and (cycle == 0 or obj_previous <= obj)')
-      cyc = [lp.target.id for lp in ast.walk(f.node)
-             if isinstance(lp, ast.For) and isinstance(lp.target, ast.Name)
-             and n in list(ast.walk(lp))]
-      tests_c = [t.replace('%s == 0' % c_, 'cycle == 0') for t in tests
-                 for c_ in (cyc[:1] or ['cycle'])]
-      if any(t in good for t in tests_c):
+      verdicts = []
+      for p_ in ifs:
+        blk = block_of(p_)
+        t_ = astutil.unfold(p_.test, blk, p_, stop=(kept, new)) \
+            if p_ in blk else p_.test
+        v_, ck, cn = objective_cmp(t_, kept, new)
+        if v_:
+          verdicts.append(v_)
+          obj_calls.append((ck, cn))
+      tests = [ast.unparse(p_.test) for p_ in ifs]
+      if 'better' in verdicts:
         rep.derived(R, key + 'improvement', site(f, n))
-      elif any(('obj < obj_previous' in t or 'obj <= obj_previous' in t)
-               for t in tests_c):
+      elif 'worse' in verdicts:
         rep.refuted(R, key + 'improvement', site(f, n), 'the iterate is kept '
                     'when the dissimilar-pair objective got WORSE (%s)'
                     % tests)
-      elif any('obj' in t for t in tests_c):
+      elif any(isinstance(x, ast.Compare) and any(
+              isinstance(y, (ast.Call, ast.Name)) and
+              ('obj' in ast.unparse(y) or '_f' in ast.unparse(y))
+              for y in ast.walk(x)) for p_ in ifs
+              for x in ast.walk(p_.test)):
         rep.unknown(R, key + 'improvement', site(f, n), 'acceptance test %s '
-                    'not in the table' % tests)
+                    'is not a comparison of one objective at the kept and at '
+                    'the new iterate' % tests)
       else:
         rep.refuted(R, key + 'improvement', site(f, n), 'the iterate is kept '
                     'without comparing the dissimilar-pair objective with '
                     'the kept one (%s)' % tests)
-  # objective evaluations use the dissimilar pairs
-  for nm, arg2 in (('obj', 'A'), ('obj_previous', 'A_old')):
-    dv = [v for (n, v) in guards.assignments(f.node, nm) if v is not None]
-    if not dv:
-      continue        # written in place in the acceptance test (see above)
-    ok = dv and ast.unparse(dv[0]) == 'self._fD(neg_pairs, %s)' % arg2
-    rep.add(R, key + nm, 'derived' if ok else 'refuted', site(f),
-            '' if ok else '%s is %s, documented fD(dissimilar pairs, %s)'
-            % (nm, ast.unparse(dv[0]) if dv else None, arg2))
+  # the compared objective is fD on the dissimilar pairs (or on the
+  # differences computed from them)
+  for (ck, cn) in obj_calls[:1]:
+    fn_ = ast.unparse(ck.func)
+    a0 = ast.unparse(ck.args[0]) if ck.args else ''
+    blk0 = f.node.body
+    src0 = astutil.unfold(ck.args[0], blk0, blk0[-1]) if ck.args else None
+    t0 = ast.unparse(src0).replace(' ', '') if src0 is not None else ''
+    is_neg = ('==-1' in t0 or '<0' in t0 or '!=1' in t0)
+    is_pos = ('==1' in t0 or '>0' in t0 or '!=-1' in t0)
+    neg = is_neg and not is_pos
+    okf = fn_ in ('self._fD',) and neg
+    rep.add(R, key + 'obj', 'derived' if okf else (
+        'refuted' if fn_ in ('self._fS1', 'self._fD1', 'self._fS') or (
+            is_pos and not is_neg) else 'unknown'), site(f, ck),
+        '' if okf else 'the compared objective is %s(%s, .), documented '
+        'fD(dissimilar pairs, .)' % (fn_, a0))
   # ascent step and fallback
   # (updates of A inside the alternating-projection loop - the loop that
   # contains the eigen-decomposition - are projection steps, not ascent
